@@ -116,10 +116,12 @@ theorem gcv_frame_fields (fl : Flags) (ctx : Ctx) (pool : List Tx) (gt : Option 
 
 /-! ## a created block validates -/
 
-/-- `Block::create` level: under the frame condition every created block passes `Block::validate`. -/
-theorem validate_create (fl : Flags) (ctx : Ctx) (pool : List Tx) (gt : Option Tx) (ts : Nat) (b : Block)
+/-- `Block::create` level: under the frame condition every created block passes `Block::validate`. The only thing
+    asked of the rebroadcasts is the weakest possible: where the per-transaction verdict gates validity, every
+    ATR-typed transaction of the created block passes it. -/
+theorem validate_create_atr (fl : Flags) (ctx : Ctx) (pool : List Tx) (gt : Option Tx) (ts : Nat) (b : Block)
     (hF : FrameOK fl ctx)
-    (hk : fl.txVerdict = true → fl.atrKeepsKey = true)
+    (hav : fl.txVerdict = true → ∀ t ∈ b.txs, t.typ = .atr → t.valid = true)
     (hs : Shape pool gt)
     (hv : fl.txVerdict = true → ∀ t ∈ gt.toList ++ pool, t.valid = true)
     (hst : ctx.stake ≠ 0 → stakeCount pool = 1)
@@ -144,7 +146,7 @@ theorem validate_create (fl : Flags) (ctx : Ctx) (pool : List Tx) (gt : Option T
   have hfee : feeCheck fl ctx (mkBlock fl ctx pool gt ts) (frameCV (mkBlock fl ctx pool gt ts)) = true := by
     unfold feeCheck; rw [feeCount_ok fl ctx pool gt ts hs hnf, feeCompare_ok fl ctx pool gt ts]; rfl
   have hprev := prev_ok fl ctx pool gt ts hs hgt hwork
-  have hsw := sweep_ok fl ctx pool gt ts hk hv hd
+  have hsw := sweep_ok_atr fl ctx pool gt ts hav hv hd
   have hc := frameCV_core (mkBlock fl ctx pool gt ts)
   have hsh := scan_shape pool gt hs
   have hit : (frameCV (mkBlock fl ctx pool gt ts)).itNum = 0 := by
@@ -164,10 +166,39 @@ theorem validate_create (fl : Flags) (ctx : Ctx) (pool : List Tx) (gt : Option T
   rw [hhdr.1, hhdr.2.1, hhdr.2.2, hrs, hrh, hfee, hprev, hsw, hit, hemp, hstake]
   simp
 
-/-- `Mempool::bundle_block` level, any flags satisfying the frame condition. -/
-theorem validate_bundle (fl : Flags) (ctx : Ctx) (loc : Local) (pool : List Tx) (gt : Option Tx) (ts : Nat) (b : Block)
+/-- a block returned by `create` is `mkBlock` -/
+theorem create_eq_mk (fl : Flags) (ctx : Ctx) (pool : List Tx) (gt : Option Tx) (ts : Nat) (b : Block)
+    (hb : create fl ctx pool gt ts = some b) : b = mkBlock fl ctx pool gt ts := by
+  unfold create at hb
+  simp only at hb
+  split at hb
+  · injection hb with hb; exact hb.symm
+  · cases hb
+
+/-- the same with the rebroadcast input keeping its key by construction (`atrKeepsKey`, C13's repair) -/
+theorem validate_create (fl : Flags) (ctx : Ctx) (pool : List Tx) (gt : Option Tx) (ts : Nat) (b : Block)
     (hF : FrameOK fl ctx)
     (hk : fl.txVerdict = true → fl.atrKeepsKey = true)
+    (hs : Shape pool gt)
+    (hv : fl.txVerdict = true → ∀ t ∈ gt.toList ++ pool, t.valid = true)
+    (hst : ctx.stake ≠ 0 → stakeCount pool = 1)
+    (hnf : fl.feeTxCount = true → ∀ t ∈ pool, t.typ ≠ .fee)
+    (hgt : ∀ t, gt = some t → ctx.gtOk t.ticket = true)
+    (hne : gt.toList ++ pool ≠ [])
+    (hwork : ∀ p, ctx.prev = some p → ctx.workF p.bf ts p.ts ctx.hb ≤ (pool.map (·.work)).sum)
+    (hb : create fl ctx pool gt ts = some b) :
+    validate fl ctx b = true := by
+  refine validate_create_atr fl ctx pool gt ts b hF ?_ hs hv hst hnf hgt hne hwork hb
+  intro hx t ht _
+  rw [create_eq_mk fl ctx pool gt ts b hb, mk_txs, List.mem_append] at ht
+  rcases ht with ht | ht
+  · exact hv hx t ht
+  · exact all_valid_of fl (hk hx) _ t ht
+
+/-- `Mempool::bundle_block` level, any flags satisfying the frame condition; rebroadcasts as in `validate_create_atr`. -/
+theorem validate_bundle_atr (fl : Flags) (ctx : Ctx) (loc : Local) (pool : List Tx) (gt : Option Tx) (ts : Nat) (b : Block)
+    (hF : FrameOK fl ctx)
+    (hav : fl.txVerdict = true → ∀ t ∈ b.txs, t.typ = .atr → t.valid = true)
     (hp : PoolWF fl pool) (hg : TicketWF fl ctx gt) (hl : LocalWF loc pool)
     (hb : bundle fl ctx loc pool gt ts = some b) :
     validate fl ctx b = true := by
@@ -193,7 +224,7 @@ theorem validate_bundle (fl : Flags) (ctx : Ctx) (loc : Local) (pool : List Tx) 
       obtain ⟨⟨⟨⟨hne, _⟩, _⟩, _⟩, hwk⟩ := hcan
       have hpool_ne : pool ≠ [] := by
         intro h; rw [h] at hne; simp at hne
-      apply validate_create fl ctx (pool ++ [s]) gt ts b hF hk
+      apply validate_create_atr fl ctx (pool ++ [s]) gt ts b hF hav
       · -- shape
         constructor
         · intro t ht
@@ -234,6 +265,52 @@ theorem validate_bundle (fl : Flags) (ctx : Ctx) (loc : Local) (pool : List Tx) 
         omega
       · exact hb
 
+/-- what `bundle_block` returns is the block `Block::create` assembles from the pool plus the staking transaction -/
+theorem bundle_eq_mk (fl : Flags) (ctx : Ctx) (loc : Local) (pool : List Tx) (gt : Option Tx) (ts : Nat) (b : Block)
+    (hl : LocalWF loc pool) (hb : bundle fl ctx loc pool gt ts = some b) :
+    ∃ s, loc.stakeTx = some s ∧ s.typ = .blockStake ∧ b = mkBlock fl ctx (pool ++ [s]) gt ts := by
+  unfold bundle at hb
+  split at hb
+  case isFalse => cases hb
+  case isTrue =>
+  cases hs : loc.stakeTx with
+  | none => rw [hs] at hb; cases hb
+  | some s =>
+    rw [hs] at hb
+    simp only at hb
+    have hsw := hl.stake s hs
+    rw [hsw.2] at hb
+    simp only [if_true] at hb
+    exact ⟨s, rfl, hsw.1, create_eq_mk fl ctx (pool ++ [s]) gt ts b hb⟩
+
+/-- in a bundled block of a well-formed pool the ATR-typed transactions are exactly appended rebroadcasts -/
+theorem atr_of_bundle_appended (fl : Flags) (ctx : Ctx) (loc : Local) (pool : List Tx) (gt : Option Tx) (ts : Nat) (b : Block)
+    (hp : PoolWF fl pool) (hg : TicketWF fl ctx gt) (hl : LocalWF loc pool)
+    (hb : bundle fl ctx loc pool gt ts = some b) :
+    ∀ t ∈ b.txs, t.typ = .atr → t ∈ appended fl b.cv := by
+  obtain ⟨s, _, hst, rfl⟩ := bundle_eq_mk fl ctx loc pool gt ts b hl hb
+  intro t ht htyp
+  rw [mk_txs, List.mem_append] at ht
+  rcases ht with ht | ht
+  · exfalso
+    simp only [List.mem_append, Option.mem_toList, List.mem_singleton] at ht
+    rcases ht with ht | ht | ht
+    · rw [(hg t ht).1] at htyp; cases htyp
+    · exact (hp.noPriv t ht).2.1 htyp
+    · subst ht; rw [hst] at htyp; cases htyp
+  · exact ht
+
+/-- `Mempool::bundle_block` level with `atrKeepsKey` -/
+theorem validate_bundle (fl : Flags) (ctx : Ctx) (loc : Local) (pool : List Tx) (gt : Option Tx) (ts : Nat) (b : Block)
+    (hF : FrameOK fl ctx)
+    (hk : fl.txVerdict = true → fl.atrKeepsKey = true)
+    (hp : PoolWF fl pool) (hg : TicketWF fl ctx gt) (hl : LocalWF loc pool)
+    (hb : bundle fl ctx loc pool gt ts = some b) :
+    validate fl ctx b = true := by
+  refine validate_bundle_atr fl ctx loc pool gt ts b hF ?_ hp hg hl hb
+  intro hx t ht htyp
+  exact all_valid_of fl (hk hx) _ t (atr_of_bundle_appended fl ctx loc pool gt ts b hp hg hl hb t ht htyp)
+
 /-- C07 at full strength for the repaired tree: whatever the pool (well-formed), ticket, timestamp and chain
     context, a block the producer returns passes full validation on the producer. -/
 theorem C07_full (fl : Flags) (ctx : Ctx) (loc : Local) (pool : List Tx) (gt : Option Tx) (ts : Nat) (b : Block)
@@ -272,6 +349,34 @@ theorem C07_partial (fl : Flags) (ctx ctx' : Ctx) (loc : Local) (pool : List Tx)
     (hb : bundle fl ctx loc pool gt ts = some b) :
     validate fl ctx b = true ∧ validate fl ctx' b = true := by
   have h := validate_bundle fl ctx loc pool gt ts b (Or.inr hno) hk hp hg hl hb
+  exact ⟨h, by rw [← hsame.eq]; exact h⟩
+
+/-- no payout ⇒ every ATR-typed transaction of the bundled block passes the per-transaction verdict: its input is
+    the original output with the original amount, hence the original utxo key (`Reb.toTx`: `valid` iff
+    `atrKeepsKey ∨ frm = amt`). This is what `hk` was used for, derived instead of assumed. -/
+theorem atr_valid_of_noPayout (fl : Flags) (ctx : Ctx) (loc : Local) (pool : List Tx) (gt : Option Tx) (ts : Nat) (b : Block)
+    (hno : NoAtrPayout ctx (prevId ctx + 1))
+    (hp : PoolWF fl pool) (hg : TicketWF fl ctx gt) (hl : LocalWF loc pool)
+    (hb : bundle fl ctx loc pool gt ts = some b) :
+    ∀ t ∈ b.txs, t.typ = .atr → t.valid = true := by
+  intro t ht htyp
+  have hmem := atr_of_bundle_appended fl ctx loc pool gt ts b hp hg hl hb t ht htyp
+  obtain ⟨s, _, _, rfl⟩ := bundle_eq_mk fl ctx loc pool gt ts b hl hb
+  exact appended_valid_of_noPayout fl ctx (pool ++ [s]) gt ts hno t hmem
+
+/-- C07 for EVERY flag vector — in particular the one measured on the tree under test
+    (`txVerdict = true`, `atrKeepsKey = false`, `poolRejectsPriv = true`, `feeTxCount = true`, cap and hash pinned):
+    whenever no rebroadcast of the new block carries a payout, the block the producer returns passes full
+    validation on the producer and on every node holding the same chain. No hypothesis relating `txVerdict`
+    and `atrKeepsKey`. Missing for the full statement: blocks with an ATR payout (`payout_verdict_witness`). -/
+theorem C07_partial_verdict (fl : Flags) (ctx ctx' : Ctx) (loc : Local) (pool : List Tx) (gt : Option Tx) (ts : Nat) (b : Block)
+    (hsame : SameChain ctx ctx')
+    (hno : NoAtrPayout ctx (prevId ctx + 1))
+    (hp : PoolWF fl pool) (hg : TicketWF fl ctx gt) (hl : LocalWF loc pool)
+    (hb : bundle fl ctx loc pool gt ts = some b) :
+    validate fl ctx b = true ∧ validate fl ctx' b = true := by
+  have h := validate_bundle_atr fl ctx loc pool gt ts b (Or.inr hno)
+    (fun _ => atr_valid_of_noPayout fl ctx loc pool gt ts b hno hp hg hl hb) hp hg hl hb
   exact ⟨h, by rw [← hsame.eq]; exact h⟩
 
 /-! ## when is there no payout -/
@@ -415,6 +520,58 @@ theorem stale_work_witness :
     ∃ b, bundle Flags.pinned wCtxWork { wLoc with workAvail := 500 } wPool wGt 150 = some b ∧
       b.totalWork = 0 ∧ validate Flags.pinned wCtxWork b = false := by
   refine ⟨(bundle Flags.pinned wCtxWork { wLoc with workAvail := 500 } wPool wGt 150).get (by decide +kernel), by simp, ?_, ?_⟩ <;> decide +kernel
+
+/-! ## the flag vector measured on the tree under test -/
+
+/-- what the produce suite measures on the current tree: per-transaction verdict gating (F1), pool refuses privileged
+    types, fee-count rule (F7); the cap, the rebroadcast hash and the rebroadcast input key are still as pinned -/
+def measuredFlags : Flags := { txVerdict := true, poolRejectsPriv := true, feeTxCount := true }
+
+/-- CONVERSE of `C07_partial_verdict` for that vector (the still-open finding
+    `C07/self-produced-block-rejected/atr-payout-present`): on a wrapped chain with payout multiplier 11 the producer's
+    block is refused by its own `validate`. Producer `total_payout_atr = 0` (cap on `self.treasury = 0`), validator
+    100; and the block's rebroadcast transaction fails the per-transaction verdict (input amount rewritten). -/
+theorem payout_verdict_witness :
+    ∃ b, bundle measuredFlags wCtx2 wLoc wPool wGt 500 = some b ∧
+      b.cv.tpa = 0 ∧ (gcv measuredFlags wCtx2 b.view).tpa = 100 ∧
+      (b.txs.filter isAtr).map (·.valid) = [false] ∧
+      validate measuredFlags wCtx2 b = false ∧
+      ¬ NoAtrPayout wCtx2 (prevId wCtx2 + 1) := by
+  refine ⟨(bundle measuredFlags wCtx2 wLoc wPool wGt 500).get (by decide +kernel), by simp, ?_, ?_, ?_, ?_, ?_⟩
+  · decide +kernel
+  · decide +kernel
+  · decide +kernel
+  · decide +kernel
+  · intro h
+    have := h [{ size := 100, slips := [{ amt := 10, key := 1, owner := 3, styp := 0 }] }] (by decide +kernel)
+    revert this
+    decide +kernel
+
+/-- a wrapped chain (tip 7, gp 5) whose treasury is too small for a payout: one output is rebroadcast at par -/
+def wCtxPar : Ctx := { wCtx with prev := some { wPrev with treasury := 99 } }
+
+/-- the hypotheses of `C07_partial_verdict` are satisfiable for the measured vector with a non-empty pool, on a chain
+    past the window wrap, and the producer does return a block there (which carries a rebroadcast) -/
+example :
+    SameChain wCtxPar wCtxPar ∧ NoAtrPayout wCtxPar (prevId wCtxPar + 1) ∧ PoolWF measuredFlags wPool ∧ wPool ≠ [] ∧
+    TicketWF measuredFlags wCtxPar wGt ∧ LocalWF wLoc wPool ∧
+    ∃ b, bundle measuredFlags wCtxPar wLoc wPool wGt 500 = some b ∧ b.cv.rebs.length = 1 ∧
+      validate measuredFlags wCtxPar b = true := by
+  refine ⟨⟨rfl, rfl, rfl, rfl, rfl, rfl, rfl, fun _ _ _ _ => rfl, fun _ _ _ _ => rfl, fun _ => rfl, fun _ => rfl,
+            fun _ => rfl, fun _ => rfl, fun _ => rfl, fun _ => rfl, fun _ => rfl⟩,
+          noPayout_mult_one _ { wPrev with treasury := 99 } rfl (by decide),
+          ⟨by decide, fun _ => by decide, fun _ => by decide⟩, by decide,
+          (by intro t ht; cases ht; exact ⟨rfl, rfl, fun _ => rfl⟩),
+          ⟨by intro s hs; cases hs; exact ⟨rfl, rfl⟩, by decide⟩, ?_⟩
+  refine ⟨(bundle measuredFlags wCtxPar wLoc wPool wGt 500).get (by decide +kernel), by simp, by decide +kernel, ?_⟩
+  -- by the theorem, not by evaluation
+  exact (C07_partial_verdict measuredFlags wCtxPar wCtxPar wLoc wPool wGt 500 _
+    ⟨rfl, rfl, rfl, rfl, rfl, rfl, rfl, fun _ _ _ _ => rfl, fun _ _ _ _ => rfl, fun _ => rfl, fun _ => rfl,
+      fun _ => rfl, fun _ => rfl, fun _ => rfl, fun _ => rfl, fun _ => rfl⟩
+    (noPayout_mult_one _ { wPrev with treasury := 99 } rfl (by decide))
+    ⟨by decide, fun _ => by decide, fun _ => by decide⟩
+    (by intro t ht; cases ht; exact ⟨rfl, rfl, fun _ => rfl⟩)
+    ⟨by intro s hs; cases hs; exact ⟨rfl, rfl⟩, by decide⟩ (by simp)).1
 
 /-! ## non-vacuity of the hypotheses -/
 
